@@ -110,6 +110,83 @@ def regenerate_tables():
     old = open(path).read() if os.path.exists(path) else ''
     if old != r.stdout:
         open(path, 'w').write(r.stdout)
+    regenerate_doc_tables()
+    return True
+
+
+def _md_tables(path):
+    """every markdown table of a file: list of (header cells, rows of cells)"""
+    tabs, cur = [], None
+    for line in open(path, encoding='utf-8'):
+        line = line.rstrip('\n')
+        if line.startswith('|'):
+            cells = [c.strip() for c in line.strip().strip('|').split('|')]
+            if cur is None:
+                cur = [cells]
+            else:
+                cur.append(cells)
+        else:
+            if cur:
+                tabs.append(cur)
+            cur = None
+    if cur:
+        tabs.append(cur)
+    out = []
+    for t in tabs:
+        rows = [r for r in t[1:] if not all(set(c) <= set('-: ') for c in r)]
+        out.append((t[0], rows))
+    return out
+
+
+def regenerate_doc_tables():
+    """D: the tables of doc/derive_ex.md that the specification restates, parsed from the documentation on every run and
+    written as a Lean file; Props/DocTables.lean proves the specification (Spec/*.lean) equal to them."""
+    path = f'{REPO}/doc/derive_ex.md'
+    attr_trait, arg_place, levels = [], [], []
+    try:
+        tabs = _md_tables(path)
+    except OSError:
+        tabs = []
+    attrs = ['ord', 'partial_ord', 'eq', 'partial_eq', 'hash']
+    ops = ['Ord', 'PartialOrd', 'Eq', 'PartialEq', 'Hash']
+    for head, rows in tabs:
+        h = [c.strip('`') for c in head]
+        if h[1:] == ops:
+            for r in rows:
+                m = re.match(r'`#\[(\w+)\(\.\.\.\)\]`', r[0])
+                if m and m.group(1) in attrs:
+                    for j, c in enumerate(r[1:6]):
+                        attr_trait.append((attrs.index(m.group(1)), j, '✔' in c))
+        elif h[:5] == ['argument', 'struct', 'enum', 'variant', 'field'] and '#[ord]' in h:
+            names = ['ignore', 'reverse', 'by', 'key', 'bound']
+            for r in rows:
+                m = re.search(r'`(\w+)', r[0])
+                if m and m.group(1) in names:
+                    for j in range(4):
+                        arg_place.append((names.index(m.group(1)), j, '✔' in r[1 + j]))
+        elif len(h) == 4 and h[1:] == ['struct, enum', 'variant', 'field'] and rows and 'trait_name(bound' in rows[0][0]:
+            for i, r in enumerate(rows[:3]):
+                for j in range(3):
+                    try:
+                        levels.append((i, j, int(r[1 + j])))
+                    except ValueError:
+                        pass
+    def lst(xs, f):
+        return '[' + ', '.join(f(x) for x in xs) + ']'
+    b = lambda v: 'true' if v else 'false'
+    txt = ('-- GENERATED by bin/vlib.py (regenerate_doc_tables) from doc/derive_ex.md of the repository. Do not edit.\n'
+           'namespace DX.Generated\n\n'
+           '/-- "which helper attributes affect which trait": (attribute [ord, partial_ord, eq, partial_eq, hash], trait [Ord, PartialOrd, Eq, PartialEq, Hash], ticked) -/\n'
+           f'def docAttrTraitTable : List (Nat × Nat × Bool) := {lst(attr_trait, lambda x: f"({x[0]}, {x[1]}, {b(x[2])})")}\n\n'
+           '/-- "helper attribute arguments and the locations where they can be used": (argument [ignore, reverse, by, key, bound], location [struct, enum, variant, field], ticked) -/\n'
+           f'def docArgPlaceTable : List (Nat × Nat × Bool) := {lst(arg_place, lambda x: f"({x[0]}, {x[1]}, {b(x[2])})")}\n\n'
+           '/-- "`bound(...)` can be used in the following places, the lower the number, the higher the priority": (source [helper attribute, per-trait argument, shared argument], placement [type, variant, field], number) -/\n'
+           f'def docLevelTable : List (Nat × Nat × Nat) := {lst(levels, lambda x: f"({x[0]}, {x[1]}, {x[2]})")}\n\n'
+           'end DX.Generated\n')
+    out = f'{LEAN}/DeriveExModel/Generated/DocTables.lean'
+    old = open(out).read() if os.path.exists(out) else ''
+    if old != txt:
+        open(out, 'w').write(txt)
     return True
 
 
